@@ -115,10 +115,11 @@ def units():
                           "ghost file position driven by the psf_ftell / psf_fseek / psf_fwrite contracts"]})
     for cname, fn in (("au", "au_read_header"), ("avr", "avr_read_header"), ("htk", "htk_read_header"), ("wve", "wve_read_header"), ("mpc2k", "mpc2k_read_header"),
                       ("mat4", "mat4_read_header"), ("mat5", "mat5_read_header"), ("ircam", "ircam_read_header"),
-                      ("paf", "paf_read_header")):
+                      ("paf", "paf_read_header"), ("wavlike", "wavlike_fmt_h")):
         U.append({"name": "parser." + cname, "props": ["C03"], "harness": "parser.harness.c", "entry": "h_parser", "dfcc": False,
-                  "function": "%s.c:%s" % (cname, fn), "defines": ["-DPARSER_FILE=\"%s.c\"" % cname, "-DREAD_FN=" + fn],
-                  "cbmc_flags": ["--object-bits", "9", "--unwind", "12", "--unwindset", "strlen.0:260"], "timeout": 600, "drop_flags": ["--signed-overflow-check"],
+                  "function": "%s.c:%s" % (cname, fn.replace("wavlike_fmt_h", "wavlike_read_fmt_chunk")), "defines": ["-DPARSER_FILE=\"%s.c\"" % cname, "-DREAD_FN=" + fn] + (["-DWAVLIKE_FMT_WRAPPER", "-DLINKS_COMMON"] if cname == "wavlike" else []),
+                  "link_sources": (["common.c"] if cname == "wavlike" else []), "pre_gi_flags": (["--remove-function-body", "psf_log_printf"] if cname == "wavlike" else []),
+                  "cbmc_flags": ["--object-bits", "9", "--unwind", "24" if cname == "wavlike" else "12", "--unwindset", "strlen.0:520,memcmp.0:20"], "timeout": 600, "drop_flags": ["--signed-overflow-check"],
                   "note": "signed overflow of arithmetic on hostile header fields is not checked here (seen: htk.c 2 * sample_count + 12, offsets near INT_MAX): the property speaks of memory errors, hangs and insane info",
                   "kind": "proof(every value read from the file unconstrained; loops over format strings unwound completely)",
                   "trusted": ["E1 model of psf_binheader_readf driven by the format string (destinations checked for the field / block size, filled with unconstrained bytes)",
